@@ -23,29 +23,13 @@ Fixpoint has_base_text (e : elem) : bool :=
 Fixpoint exists_elem (f : elem -> bool) (e : elem) : bool :=
   f e || match e with Elem _ cs => (fix go (l : list elem) : bool := match l with [] => false | c :: l' => exists_elem f c || go l' end) cs end.
 
-(* writers-skip-ruby: a snapshot holds a ruby element with base text *)
-Definition ruby_with_text (e : elem) : bool := match e_kind (eattrs e) with KRuby => has_base_text e | _ => false end.
-Definition trig_ruby (seq : list (Q * list elem)) : bool :=
-  existsb (fun x => existsb (exists_elem ruby_with_text) (snd x)) seq.
-
-(* vtt-nested-div-lost: after the filters, region -> body -> div has a child that is not a p and holds text *)
-Definition nested_div_text (regions : list elem) : bool :=
-  existsb (fun r => existsb (fun b => existsb (fun dv => existsb (fun c => match e_kind (eattrs c) with KP => false | _ => has_text c end)
-                                                                  (echildren dv)) (echildren b)) (echildren r)) regions.
-Definition trig_nested_div (cfg : vtt_config) (seq : list (Q * list elem)) : bool :=
-  match vtt_filters cfg with
-  | Some fs => existsb (fun x => nested_div_text (apply_filters fs (snd x))) seq
-  | None => false
-  end.
-
 (* on the cue lists *)
 Definition cue_chars (c : cue) : text := chars_of (c_items c).
-(* tags-only-cue: a cue that survives the white-space test only because of its tags *)
-Definition trig_tags_only (cs : list cue) : bool := existsb (fun c => only_whitespace (cue_chars c)) cs.
 (* collapsed-interval: after rounding to the millisecond a cue does not end after it begins *)
 Definition trig_collapsed (cs : list cue) : bool :=
   existsb (fun c => match c_end c with Some e => e <=? c_begin c | None => false end) cs.
-(* unbounded-not-last: a cue other than the last one has no end (several cues in the unbounded final interval) *)
+(* a cue without an end: finish() of the SubRip writer reaches the last cue only (a second cue in the unbounded final interval
+   needs a snapshot outside the content model: Proofs/C07/Single.v) *)
 Definition trig_unbounded (cs : list cue) : bool := existsb (fun c => match c_end c with None => true | Some _ => false end) cs.
 
 Fixpoint has_prefix_z (p t : text) : bool :=
@@ -65,9 +49,6 @@ Fixpoint lines_go (cur : text) (t : text) : list text :=
 Definition trig_blank_line (ws_lines : bool) (esc : Z -> text) (cs : list cue) : bool :=
   existsb (fun c => existsb (fun l => if ws_lines then only_whitespace l else match l with [] => true | _ => false end)
                             (lines_go [] (cue_text esc c))) cs.
-(* line-out-of-range: a line percentage outside 0..100 *)
-Definition trig_line_range (cs : list cue) : bool :=
-  existsb (fun c => match c_line c with Some (l, _) => (l <? 0) || (100 <? l) | None => false end) cs.
 (* nested-span-resets-style: a span holding text whose computed weight / style / decoration is the default while an
    enclosing span's is bold / italic / underlined (its characters stay inside the outer span's tags) *)
 Fixpoint reset_in (ob oi ou : bool) (e : elem) : bool :=
@@ -76,9 +57,9 @@ Fixpoint reset_in (ob oi ou : bool) (e : elem) : bool :=
       match e_kind a with
       | KSpan =>
           let b := is_element_bold a in let i := is_element_italic a in let u := is_element_underlined a in
-          (((ob && negb b) || (oi && negb i) || (ou && negb u)) && has_text e) ||
+          (((ob && negb b) || (oi && negb i) || (ou && negb u)) && has_base_text e) ||
           (fix go (l : list elem) : bool := match l with [] => false | c :: l' => reset_in (ob || b) (oi || i) (ou || u) c || go l' end) cs
-      | KRuby => false
+      | KRt | KRtc | KRp => false                (* annotations are not written *)
       | _ => (fix go (l : list elem) : bool := match l with [] => false | c :: l' => reset_in ob oi ou c || go l' end) cs
       end
   end.
